@@ -789,3 +789,130 @@ func (p *Program) constTable(x ast.Expr) []*ast.KeyValueExpr {
 	p.constTables[g] = entries
 	return entries
 }
+
+// privateAlloc: a local variable that is assigned exactly once, from &T{...} or new(T), and is only ever used as the
+// base of a selector (x.f, x.m(...)) - in its function and, as a receiver, in the methods called on it. Nothing but
+// code that is handed x can reach what hangs off it.
+func (p *Program) privateAlloc(o types.Object) bool {
+	v, ok := o.(*types.Var)
+	if !ok || v.IsField() || v.Pkg() == nil || v.Parent() == v.Pkg().Scope() {
+		return false
+	}
+	if p.privAlloc == nil {
+		p.privAlloc = map[types.Object]bool{}
+	}
+	if r, done := p.privAlloc[o]; done {
+		return r
+	}
+	p.privAlloc[o] = false
+	d := p.defTable()[o]
+	if d == nil || d.count != 1 || d.rhs == nil || !p.neverReassigned(o) {
+		return false
+	}
+	rhs := ast.Unparen(d.rhs)
+	okAlloc := false
+	if u, isU := rhs.(*ast.UnaryExpr); isU && u.Op == token.AND {
+		_, okAlloc = ast.Unparen(u.X).(*ast.CompositeLit)
+	}
+	if call, isCall := rhs.(*ast.CallExpr); isCall && IsBuiltinCall(p.Info, call, "new") {
+		okAlloc = true
+	}
+	if !okAlloc {
+		return false
+	}
+	// the function that declares it
+	var fd *ast.FuncDecl
+	for _, pkg := range p.All {
+		for _, f := range AllFuncs(pkg) {
+			if f.Pos() <= o.Pos() && o.Pos() < f.End() {
+				fd = f
+			}
+		}
+	}
+	if fd == nil {
+		return false
+	}
+	onlySelectorBase := func(body ast.Node, obj types.Object) (bool, []*types.Func) {
+		ok := true
+		var methods []*types.Func
+		ast.Inspect(body, func(n ast.Node) bool {
+			id, isID := n.(*ast.Ident)
+			if !isID || objOf(p.Info, id) != obj {
+				return true
+			}
+			if p.Info.Defs[id] != nil {
+				return true // the declaration itself
+			}
+			sel, isSel := p.Parent(id).(*ast.SelectorExpr)
+			if !isSel || sel.X != ast.Expr(id) {
+				ok = false
+				return true
+			}
+			if s, has := p.Info.Selections[sel]; has && s.Kind() == types.MethodVal {
+				if call, isCall := p.Parent(sel).(*ast.CallExpr); !isCall || call.Fun != ast.Expr(sel) {
+					ok = false // a method value escapes
+				} else if f, isF := s.Obj().(*types.Func); isF {
+					methods = append(methods, f)
+				}
+			}
+			return true
+		})
+		return ok, methods
+	}
+	ok1, methods := onlySelectorBase(fd.Body, o)
+	if !ok1 {
+		return false
+	}
+	seen := map[*types.Func]bool{}
+	for i := 0; i < len(methods) && i < 32; i++ {
+		m := methods[i]
+		if seen[m] {
+			continue
+		}
+		seen[m] = true
+		decl, _ := p.DeclOf(m)
+		if decl == nil || decl.Recv == nil || len(decl.Recv.List) != 1 || len(decl.Recv.List[0].Names) != 1 {
+			if decl == nil {
+				return false // a method we cannot see
+			}
+			continue
+		}
+		recv := p.Info.Defs[decl.Recv.List[0].Names[0]]
+		if recv == nil {
+			continue
+		}
+		okm, more := onlySelectorBase(decl.Body, recv)
+		if !okm {
+			return false
+		}
+		methods = append(methods, more...)
+	}
+	p.privAlloc[o] = true
+	return true
+}
+
+// globalInitExpr: the initialiser of a package-level variable (nil if it has none).
+func (p *Program) globalInitExpr(g *types.Var) ast.Expr {
+	if p.globalInits == nil {
+		p.globalInits = map[*types.Var]ast.Expr{}
+		for _, pkg := range p.All {
+			for _, f := range pkg.Syntax {
+				for _, d := range f.Decls {
+					gd, ok := d.(*ast.GenDecl)
+					if !ok || gd.Tok != token.VAR {
+						continue
+					}
+					for _, sp := range gd.Specs {
+						vs := sp.(*ast.ValueSpec)
+						for i, n := range vs.Names {
+							if v, isVar := p.Info.Defs[n].(*types.Var); isVar && i < len(vs.Values) {
+								p.globalInits[v] = vs.Values[i]
+							}
+						}
+					}
+				}
+			}
+		}
+	}
+	return p.globalInits[g]
+}
